@@ -228,9 +228,32 @@ def _build(d):
                 qual = (not same) or d.pick(4) == 0
                 text = (q(tsh['name']) + '!' + body) if qual else body
                 s, n, na = _fold(tsh['cells'], rect)
-                fn = d.choice(['SUM', 'SUM', 'COUNT', 'COUNTA'])
-                want = {'SUM': s, 'COUNT': n, 'COUNTA': na}[fn]
+                fn = d.choice(['SUM', 'SUM', 'COUNT', 'COUNTA', 'CONCAT'])
                 ncell = (r2 - r1 + 1) * (c2 - c1 + 1)
+                if fn == 'CONCAT' and ncell > 60:
+                    fn = 'SUM'
+                if fn == 'CONCAT':
+                    # order-sensitive consumer: the rectangle's cells in
+                    # row-major order (blank cells contribute nothing)
+                    txt = ''
+                    for rr_ in range(r1, r2 + 1):
+                        for cc_ in range(c1, c2 + 1):
+                            v = tsh['cells'].get('%s%d' % (col(cc_), rr_))
+                            if v is None:
+                                continue
+                            txt += v if isinstance(v, str) else (
+                                str(v) if v != int(v) else str(int(v)))
+                    body2 = a + ':' + b
+                    qual2 = (not same) or d.pick(4) == 0
+                    probes.append({
+                        'sheet': sh['name'],
+                        'f': '=CONCAT(%s)' % ((q(tsh['name']) + '!' + body2)
+                                              if qual2 else body2),
+                        'want': ['T', txt],
+                        'feats': ['range', 'CONCAT'] + (
+                            ['other-sheet'] if not same else [])})
+                    continue
+                want = {'SUM': s, 'COUNT': n, 'COUNTA': na}[fn]
                 feats = ['range', fn]
                 if ncell > 256:
                     feats.append('>256-cells')
